@@ -26,8 +26,9 @@ struct Config {
     int pct_depth        = 2; // POL_PCT
     int starve_tid       = 1; // POL_STARVE
     double shortfall_p   = 0.0; // probability that a region gets fewer threads than requested
+    double clock_jump_p  = 0.0; // probability per region of a clock jump (forwards or backwards) / freeze toggle
     bool monitor         = true; // happens-before race monitor (only effective in the trace build)
-    uint64_t step_budget = 4000000000ull; // per region: scheduling points + accesses before "stall"
+    uint64_t step_budget = 600000000ull; // per region: scheduling points + accesses before "stall"
     int thread_limit     = 256;
 };
 
@@ -52,7 +53,7 @@ struct RegionStat {
 
 struct Stats {
     uint64_t regions = 0, par_regions = 0, switches = 0, sched_points = 0, barriers = 0, accesses = 0;
-    uint64_t shortfalls = 0, atomics = 0, nested = 0, preemptions = 0, checked = 0;
+    uint64_t shortfalls = 0, atomics = 0, nested = 0, preemptions = 0, checked = 0, clock_faults = 0;
     uint64_t team_hist[9] = {0}; // 1,2,3,4,5-8,9-16,17-32,33-64,65+
     int max_team         = 0;
     uint64_t sim_time_ns = 0;
